@@ -21,6 +21,10 @@ def sh(cmd, **kw):
 
 
 def main(dirs):
+    tag = ""
+    if dirs and dirs[0].startswith("--tag="):
+        tag = dirs[0].split("=", 1)[1] + "-"
+        dirs = dirs[1:]
     wt = "/tmp/wt_confirm"
     sh(["git", "-C", "/repo", "worktree", "remove", "--force", wt])
     r = sh(["git", "-C", "/repo", "worktree", "add", "--detach", wt, "HEAD"])
@@ -60,7 +64,7 @@ def main(dirs):
                 if not ok:
                     continue
                 slug = re.sub(r"[^a-z0-9]+", "-", meta.get("summary", "change").lower())[:48].strip("-")
-                sid = f"{meta['property']}-{k}-{slug}"
+                sid = f"{meta['property']}-{tag}{k}-{slug}"
                 out = os.path.join(VERIF, "seeded", sid)
                 os.makedirs(out, exist_ok=True)
                 shutil.copy(diff, os.path.join(out, "patch.diff"))
